@@ -130,10 +130,14 @@ func (p *parser) ParseConfig(data []byte, fName string) (
 				indent = getIndent()
 			} else {
 				if getIndent() < indent {
+					// First subcommand may have been ignored.
+					first := prev.orig
+					if len(prev.sub) > 0 {
+						first = strings.Repeat(" ", indent) + prev.sub[0].parsed
+					}
 					return nil,
 						fmt.Errorf("Bad indentation in subcommands:\n"+
-							">>%s<<\n>>%s<<",
-							strings.Repeat(" ", indent)+prev.sub[0].parsed, line)
+							">>%s<<\n>>%s<<", first, line)
 				}
 			}
 			line = line[indent:]
